@@ -23,8 +23,9 @@ var c12Blocks = []absDay{
 var c12PerDay = [][]string{
 	{"reg"}, {"reg", "--internal-template-name", "left-aligned"}, {"reg", "--use-old-reg-reporter"},
 	{"csv", "log"}, {"print"}, {"reg", "-f", "r"}, {"reg", "-s", "cal"}, {"reg", "-s", "fat", "--csv"},
+	{"reg", "-e", "2021/01/25"}, {"print", "-b", "2021/01/25", "-e", "2021/01/26"},
 }
-var c12Period = [][]string{{"bal"}, {"report", "totals"}, {"report", "quantity"}, {"bal", "-s", "cal"}, {"reg", "-s", "cal", "-g"}}
+var c12Period = [][]string{{"bal"}, {"report", "totals"}, {"report", "quantity"}, {"bal", "-s", "cal"}, {"reg", "-s", "cal", "-g"}, {"bal", "-e", "2021/01/25"}}
 
 // rowMap turns a period report into name -> list of numbers (all columns).
 func periodRowMap(cmd []string, out string) (map[string][]*big.Rat, error) {
@@ -32,6 +33,9 @@ func periodRowMap(cmd []string, out string) (map[string][]*big.Rat, error) {
 	kind := cmd[0]
 	if len(cmd) > 1 {
 		kind += " " + cmd[1]
+	}
+	if kind == "bal -e" {
+		kind = "bal"
 	}
 	switch kind {
 	case "report totals":
